@@ -31,16 +31,16 @@ type WdRef struct {
 type WdTx struct {
 	Kind     string `json:"kind"` // process | replace | finalize | approve
 	Refs     []int  `json:"refs,omitempty"`
-	OutMut   []int  `json:"out_mut,omitempty"` // per output: 0 right, 1 wrong script, 2 value above request, 3 value == request
-	Extra    int    `json:"extra,omitempty"`   // 0 none, 1 change to current key, 2 change to a stranger, 3 two extra outputs
+	OutMut   []int  `json:"out_mut,omitempty"`  // per output: 0 right, 1 wrong script, 2 value above request, 3 value == request
+	Extra    int    `json:"extra,omitempty"`    // 0 none, 1 change to current key, 2 change to a stranger, 3 two extra outputs
 	FeeKind  int    `json:"fee_kind,omitempty"` // 0 below the tightest maximum, 1 exactly at it, 2 above it
 	PidRef   int    `json:"pid_ref,omitempty"`
 	FeeDelta int    `json:"fee_delta,omitempty"` // replace: new fee - old fee
 	SameTx   bool   `json:"same_tx,omitempty"`
-	Cand     int    `json:"cand,omitempty"`  // finalize: candidate index; negative = a foreign txid
-	Mined    int    `json:"mined,omitempty"` // 0 voted block, 1 block not voted, 2 wrong header
-	Pos      int    `json:"pos,omitempty"`   // 0 true, 1 claimed 0, 2 alias, 3 neighbour
-	Proof    int    `json:"proof,omitempty"` // 0 genuine, 1 bit flip, 2 empty
+	Cand     int    `json:"cand,omitempty"`    // finalize: candidate index; negative = a foreign txid
+	Mined    int    `json:"mined,omitempty"`   // 0 voted block, 1 block not voted, 2 wrong header
+	Pos      int    `json:"pos,omitempty"`     // 0 true, 1 claimed 0, 2 alias, 3 neighbour
+	Proof    int    `json:"proof,omitempty"`   // 0 genuine, 1 bit flip, 2 empty
 	AtZero   bool   `json:"at_zero,omitempty"` // mine the transaction as the block's first transaction
 	Bias     bool   `json:"bias,omitempty"`    // resolve id references among the ids whose status fits the action, if any
 }
